@@ -32,6 +32,8 @@ def sort_features(t, acc):
         sort_features(t[2], acc)
     elif k == 'U':
         acc.add('custom_type')
+        for a in (t[2] if len(t) > 2 else ()):
+            sort_features(a, acc)
     elif k == 'Fun':
         acc.add('uninterpreted')
         sort_features(t[1], acc)
@@ -86,6 +88,29 @@ def features(b):
                 nonlinear = True
         elif op == 'pow':
             nonlinear = True
+        # a difference over three terms: (x - y) against a non-constant, or
+        # a difference of a difference (kept apart: its own mechanism key)
+        def _const(x):
+            return x[0] in ('int', 'real')
+        if op in ('le', 'lt', 'eq') and len(kids) == 2:
+            for a_, b_ in ((kids[0], kids[1]), (kids[1], kids[0])):
+                if a_[0] == 'minus' and not _const(b_) and not any(
+                        _const(c) for c in a_[2]):
+                    try:
+                        ta = B.typeof(a_, tm)
+                    except B.IllTyped:
+                        ta = None
+                    if ta == B.INT:
+                        non_dl.add('minus3:integer_difference')
+                    elif ta == B.REAL:
+                        non_dl.add('minus3:real_difference')
+        if op == 'minus' and any(c[0] == 'minus' and not any(
+                _const(d) for d in c[2]) for c in kids) and not any(
+                    _const(c) for c in kids):
+            if t == B.INT:
+                non_dl.add('minus3:integer_difference')
+            elif t == B.REAL:
+                non_dl.add('minus3:real_difference')
         if op in ('plus', 'times', 'div', 'toreal') and t is not None:
             if t == B.INT or op == 'toreal':
                 non_dl.add('integer_difference')
@@ -252,6 +277,17 @@ def check_detection(rep, b, j):
                 '%s of %s is %s: linear, but the formula is not' % (
                     what, B.show(fb, 150), logic or theory))
         for flag in sorted(non_dl):
+            if flag.startswith('minus3:'):
+                fl = flag.split(':')[1]
+                if logic is not None and getattr(theory, fl):
+                    rep.violation(
+                        'C13/%s-difference/three-term-difference/%s' % (
+                            what, fl),
+                        '%s of %s is %s: labelled difference logic although '
+                        'an atom relates a difference to a third term' % (
+                            what, B.show(fb, 150), logic),
+                        {'bp': B.to_json(fb), 'kind': what})
+                continue
             # difference logic is a restriction of a *logic*: the raw theory
             # object may keep the flag as long as no DL logic is selected
             if logic is not None and getattr(theory, flag):
@@ -272,7 +308,30 @@ def special_formulas():
     s0 = B.Sym('s0', B.STRING)
     b8 = B.Sym('b8_0', B.BV(8))
     a = B.Sym('a0', G.A_II)
-    out = [
+    # symbols of parametric declared sorts: the sort arguments bring their
+    # theories with them
+    PIB = ('U', 'Pair', (B.INT, B.BV(4)))
+    LR = ('U', 'List', (B.REAL,))
+    LA = ('U', 'List', (G.A_II,))
+    par = []
+    for t in (PIB, LR, LA, ('U', 'List', (B.STRING,)),
+              ('U', 'Pair', (LR, B.BV(2)))):
+        x_, y_ = B.Sym('pq0', t), B.Sym('pq1', t)
+        par.append(('eq', None, (x_, y_)))
+        par.append(('exists', (('pq0', t),), (('eq', None, (x_, y_)),)))
+        par.append(B.App('pf', B.FUN(B.BOOL, (t,)), (x_,)))
+        par.append(('eq', None, (('select', None, (
+            B.Sym('pa', B.ARR(B.INT, t)), i0)), y_)))
+    dl3 = []
+    for (x_, y_, z_, c_) in ((i0, i1, B.Sym('i2', B.INT), B.Int(3)),
+                             (r0, r1, B.Sym('r2', B.REAL), B.Real(3))):
+        m = lambda a, b: ('minus', None, (a, b))
+        dl3 += [('le', None, (m(x_, y_), z_)), ('lt', None, (z_, m(x_, y_))),
+                ('le', None, (m(m(x_, y_), z_), c_)),
+                ('le', None, (m(x_, m(y_, z_)), c_)),
+                ('eq', None, (m(x_, y_), m(y_, z_))),
+                ('le', None, (m(x_, y_), c_)), ('le', None, (x_, y_))]
+    out = par + dl3 + [
         ('eq', None, (('inttostr', None, (i0,)), ('inttostr', None, (i1,)))),
         ('eq', None, (('inttostr', None, (i0,)), s0)),
         ('le', None, (('strlen', None, (s0,)), i0)),
